@@ -245,6 +245,36 @@ def audit_sources():
 
 ALLOWED_AXIOMS = set()
 
+PINS = os.path.join(COQ, "props", "pins.json")
+
+
+def theorem_statements(prop_file):
+    """statement text (whitespace-normalised, comments stripped) of every Theorem/Corollary/Lemma of a props file"""
+    src = open(os.path.join(COQ, "props", prop_file + ".v")).read()
+    src = re.sub(r"\(\*.*?\*\)", " ", src, flags=re.S)
+    out = {}
+    for m in re.finditer(r"\b(?:Theorem|Corollary|Lemma)\s+([A-Za-z0-9_']+)(.*?)\bProof\s*\.", src, flags=re.S):
+        out[m.group(1)] = " ".join(m.group(2).split())
+    return out
+
+
+def check_pins(prop_file, theorems):
+    """the statement of every claimed theorem must be the one pinned in props/pins.json (regenerated deliberately with
+       tools/gen_pins.py and committed): a statement cannot be weakened without a visible change of that file"""
+    if not os.path.exists(PINS):
+        return []
+    pins = json.load(open(PINS)).get(prop_file, {})
+    stmts = theorem_statements(prop_file)
+    bad = []
+    for t in theorems:
+        if t not in stmts:
+            bad.append("theorem %s is not stated in props/%s.v" % (t, prop_file))
+        elif t not in pins:
+            bad.append("theorem %s has no pinned statement (run tools/gen_pins.py)" % t)
+        elif pins[t] != hashlib.sha256(stmts[t].encode()).hexdigest():
+            bad.append("the statement of theorem %s differs from its pin in props/pins.json" % t)
+    return bad
+
 
 def check_props(prop_file, theorems, tier="quick"):
     """(re)compile props/<prop_file>.v, parse its Print Assumptions transcript (and, in the
@@ -266,6 +296,8 @@ def check_props(prop_file, theorems, tier="quick"):
     verdicts = [b for b in blocks if b.startswith("Closed under") or b.startswith("Axioms:")]
     src = open(os.path.join(COQ, "props", prop_file + ".v")).read()
     printed = re.findall(r"Print Assumptions\s+([A-Za-z0-9_']+)\s*\.", src)
+    # obligations: every theorem the module claims plus every theorem the props file prints assumptions for
+    theorems = list(dict.fromkeys(list(theorems) + printed))
     details = {}
     for thm, v in zip(printed, verdicts):
         if v.startswith("Closed under"):
@@ -285,6 +317,7 @@ def check_props(prop_file, theorems, tier="quick"):
     if bad:
         failures.append("forbidden vernacular in sources: " + "; ".join(bad[:10]))
         discharged = 0
+    failures.extend(check_pins(prop_file, theorems))
     if tier == "thorough" or os.environ.get("VERIF_TIER") == "thorough":
         ok, summary = coqchk(prop_file)
         details["coqchk"] = summary
